@@ -30,6 +30,9 @@ def _timeouts(draw):
     for typ in range(4):
         if draw(st.integers(0, 4)) == 0:
             continue  # None: no timeout for this type
+        if draw(st.integers(0, 11)) == 0:
+            out[str(typ)] = 'inf'  # event_timeout=float('inf'): never fires, but it is a legal float
+            continue
         a = draw(st.sampled_from([1, 2, 3, 4, 5, 6, 8, 10, 12, 16, 24]))
         j = 0 if ongrid else draw(st.integers(1, 3))
         out[str(typ)] = a / 16 + j / 64
@@ -76,7 +79,9 @@ def classes(F):
         cl.append('deadline-fell:' + w)
     if f['ties']:
         cl.append('exact-tie')
-    if any(k for k in (F.sc.get('timeouts') or {}).values() if (k * 64) % 1 == 0 and (k * 16) % 1 == 0):
+    if any(k == 'inf' for k in (F.sc.get('timeouts') or {}).values()):
+        cl.append('infinite-timeout')
+    if any(k for k in (F.sc.get('timeouts') or {}).values() if k != 'inf' and (k * 64) % 1 == 0 and (k * 16) % 1 == 0):
         cl.append('on-grid-timeout')
     return cl
 
